@@ -274,6 +274,26 @@ Example custom_builtin_once :
   out s = [OResult 4 VNull] /\ quiescent s = true /\ all_ok cfg_custom w0 [COther (Some 4) [98] 0] = true.
 Proof. vm_compute. repeat split; reflexivity. Qed.
 
+(* the notebook built-ins: an async user feature under notebookDocument/didOpen and a sync one under
+   notebookDocument/didClose see the notebook (key nb_key 1) and its cell (101) installed / removed *)
+Definition cfg_nb : cfg :=
+  mkCfg (registry_of [mkattempt RFeature (Some s_nb_open) ONone (fn 1 true (First true ANone)) TNone;
+                      mkattempt RFeature (Some s_nb_close) ONone (fn 2 false (First false ANone)) TNone]) [] [] [1] [].
+Example notebook_builtin_first :
+  let s := run cfg_nb [Recv (CInitialize 1 []); Recv (CNbOpen 1 3%Z 101 7); TaskStep 0; Recv (CNbChange 1 4%Z);
+                       Recv (CNbClose 1 101); Recv (CNbChange 1 5%Z)] in
+  map (fun h => (h_msg h, h_part h, h_fid h, w_docs (h_snap h))) (hlog s) =
+    [(0%nat, PBuiltin, 0, []);
+     (1%nat, PBuiltin, 0, []);
+     (1%nat, PUser, 1, [(nb_key 1, (3%Z, 0)); (101, (3%Z, 7))]);
+     (2%nat, PBuiltin, 0, [(nb_key 1, (3%Z, 0)); (101, (3%Z, 7))]);
+     (3%nat, PBuiltin, 0, [(nb_key 1, (4%Z, 0)); (101, (3%Z, 7))]);
+     (3%nat, PUser, 2, []);
+     (4%nat, PBuiltin, 0, [])] /\
+  all_ok cfg_nb w0 (calls_of [Recv (CInitialize 1 []); Recv (CNbOpen 1 3%Z 101 7); Recv (CNbChange 1 4%Z);
+                              Recv (CNbClose 1 101); Recv (CNbChange 1 5%Z)]) = true.
+Proof. vm_compute. split; reflexivity. Qed.
+
 (* ------------------------------------------------------------------ the reference of the harness *)
 (* Spec.spec_run (what bin/c14_driver prints as S) is, message by message, what the clauses above
    speak about: message n is judged in the workspace the first n messages leave, owes `expect`,
